@@ -22,6 +22,10 @@ RULE = (
     "each accessor asked twice: whatever is presented must hash to the id. Non-trivial and distinct = "
     "distinct canonical JSON texts with at least one key whose every spelling was compared with the model."
 )
+RULE += (
+    " " + 'Added while validating against independently written changes: the value held by a job document reached through a fresh (not yet loaded) handle, or through a handle that loaded it before its last change, as a spelling (alone and nested); what a session answers by id after the caller changed the mapping it had opened the job with, after update_cache() attempts over a near-miss file, and after an edit refused because the destination exists.'
+    " In every third case DEBUG logging is effective for the package."
+)
 ASSUMPTIONS = [
     "The reference hash is md5(json.dumps(plain, sort_keys, ensure_ascii, separators=(', ',': '))) written "
     "from the statement; it is itself pinned by golden ids from published signac examples.",
